@@ -50,10 +50,9 @@ func (g *guard) passedOn(sp *SeqPath) bool {
 func (o *obCtx) refutedOn(sp *SeqPath, a, b role, bad token.Token, site *ssa.Call) bool {
 	for i := range o.gs {
 		h := &o.gs[i]
-		if h.call != nil || h.site != site || h.only != 0 {
-			if !(h.call == nil && h.site == site && h.only != 0) {
-				continue
-			}
+		// site == nil: a comparison made during any call of the helper counts
+		if h.call != nil || (site != nil && h.site != site) {
+			continue
 		}
 		if h.site != nil {
 			o.c.bindParam = nil
